@@ -2,9 +2,9 @@ SPECIFICATION Spec
 CONSTANTS
   Acc = {"a1", "a2"}
   Null = "0"
-  Kinds <- K5
+  Kinds <- K3
   BatchSize = 3
-  MaxBlocks = 5
+  MaxBlocks = 4
   MaxXfers = 8
   MaxPerBlock = 3
   Replica <- R1
